@@ -166,11 +166,21 @@ def _subtree_(task):
             agg['labels'][v.label] = agg['labels'].get(v.label, 0) + 1
             # replay on the real code with plain numbers before anything is reported
             c = run_concrete(fn, params, v.inputs)
+            if v.label not in c['failed'] and not selftest and \
+                    sum(1 for x in agg['violations'] if x.get('fresh_process')) < 3:
+                # the worker process has run many symbolic paths: whatever the code under test
+                # keeps per process / per thread may hide (or fake) the effect here.  Ask a
+                # fresh interpreter before the counterexample is called non-reproducing.
+                fresh = _replay_in_fresh_process(modname, famname, tier, v)
+                if fresh is not None:
+                    c = dict(c, failed=list(c['failed']) + ([v.label] if fresh else []))
+                    c['fresh_process'] = True
             rec = {
                 'label': v.label, 'inputs': enc_inputs(v.inputs), 'detail': v.detail,
                 'reproduced': v.label in c['failed'], 'concrete_failed': c['failed'],
                 'concrete_status': c['status'],
                 'concrete_detail': c['detail'][-800:] if c['status'] != 'ok' else '',
+                'fresh_process': bool(c.get('fresh_process')),
             }
             agg['violations'].append(rec)
         stack.extend(r.alts)
@@ -184,6 +194,36 @@ def _subtree_(task):
     agg['dump'] = E.dump or []
     E.dump = None
     return agg
+
+
+def _replay_in_fresh_process(modname, famname, tier, v):
+    """True / False: the counterexample does / does not reproduce in a fresh interpreter
+    (`sxv.cli replay`), None if that could not be decided"""
+    import json
+    import subprocess
+    import sys
+    import tempfile
+    here = os.path.dirname(os.path.dirname(os.path.abspath(__file__)))
+    pid = modname.rsplit('.', 1)[-1].upper()
+    fd, path = tempfile.mkstemp(suffix='.json', prefix='sxv-replay-')
+    try:
+        with os.fdopen(fd, 'w') as f:
+            json.dump({'property': pid, 'family': famname, 'tier': tier, 'label': v.label,
+                       'inputs': enc_inputs(v.inputs)}, f)
+        r = subprocess.run([sys.executable, '-m', 'sxv.cli', 'replay', path], cwd=here,
+                           capture_output=True, text=True, timeout=300)
+        if r.returncode == 1 and 'reproduced' in r.stdout:
+            return True
+        if r.returncode == 0:
+            return False
+        return None
+    except Exception:      # noqa
+        return None
+    finally:
+        try:
+            os.remove(path)
+        except OSError:
+            pass
 
 
 def explore(modname, fam, tier, seed=0, workers=None, selftest=False, dump_max=0,
